@@ -44,6 +44,7 @@ type pcall struct {
 	elSnap  string
 	payload []byte
 	paySnap []byte
+	bad     bool // the entry list holds an unencodable record: the call must fail
 	// results
 	msg     *protocol.PackedForwardMessage
 	bits    []byte
@@ -72,15 +73,25 @@ func genPcall(r *rand.Rand, big bool) *pcall {
 		}
 		p.es[i] = gen.Entry{Sec: s, Nsec: ns, Rec: rec}
 	}
+	// an entry without a record (nil interface): legal, encodes as nil
+	if n > 0 && n <= 40 && r.Intn(6) == 0 {
+		p.es[r.Intn(n)].Rec = gen.Nil()
+	}
 	p.el = gen.EntriesToGo(r, p.es)
+	// a call that fails half way: an entry the encoder cannot represent after encodable ones
+	if n >= 2 && n <= 40 && r.Intn(7) == 0 && (p.kind == "packed" || p.kind == "compressed" || p.kind == "marshal_packed") {
+		p.bad = true
+		p.el[1+r.Intn(n-1)].Record = map[string]interface{}{"k": make(chan int)}
+	}
 	p.elSnap = gen.RenderEntries(gen.EntriesFromGo(p.el), false)
-	sz := []int{0, 1, 100, 5000}[r.Intn(4)]
+	// payload sizes around the sizes at which buffers grow / might be treated specially
+	sz := []int{0, 1, 100, 5000, 20000, 40960, 50000, 65536, 70000}[r.Intn(9)]
 	if big && r.Intn(8) == 0 {
 		sz = 1<<20 + r.Intn(3<<20)
 	}
 	p.payload = make([]byte, sz)
 	r.Read(p.payload)
-	if sz > 1000 {
+	if sz > 100000 {
 		copy(p.payload[sz/2:], bytes.Repeat([]byte{'a'}, sz/4)) // partly compressible
 	}
 	p.paySnap = append([]byte{}, p.payload...)
@@ -113,6 +124,12 @@ func (p *pcall) run() {
 // judgeAtReturn: C03 — the value (as snapshotted at return time) carries exactly the entries.
 func (p *pcall) judgeAtReturn(c *core.Ctx, how string) {
 	replay := map[string]interface{}{"kind": p.kind, "entries": len(p.es), "payload_len": len(p.payload), "how": how}
+	if p.bad {
+		if p.err == nil {
+			c.Violation("judge-go", "c03-error", "constructor succeeded on an entry list holding an unencodable record ("+p.kind+")", replay)
+		}
+		return
+	}
 	if p.err != nil {
 		c.Violation("judge-go", "c03-error", "constructor failed on encodable input ("+p.kind+")", replay)
 		return
@@ -173,6 +190,12 @@ func (p *pcall) judgeAtReturn(c *core.Ctx, how string) {
 
 // stillIntact: C07 — the returned value and the caller's arguments are what they were.
 func (p *pcall) stillIntact() (string, bool) {
+	if p.bad {
+		if gen.RenderEntries(gen.EntriesFromGo(p.el), false) != p.elSnap {
+			return "the caller's entry list was modified", false
+		}
+		return "", true
+	}
 	var cur []byte
 	if p.msg != nil {
 		cur = p.msg.EventStream
@@ -268,7 +291,7 @@ func C07(c *core.Ctx) {
 			held = append(held, p)
 			c.Eval()
 			// the model's value of the stream at return time (the frame theorem says it stays that)
-			if p.err == nil && len(p.es) <= 40 && (p.kind == "packed" || p.kind == "marshal_packed") {
+			if p.err == nil && !p.bad && len(p.es) <= 40 && (p.kind == "packed" || p.kind == "marshal_packed") {
 				c.Corr("c07-value", "marshal_packed", []string{gen.EntriesDesc(p.es)}, "ok("+hx(p.snapStr)+")")
 			}
 			for j, q := range held {
@@ -288,6 +311,9 @@ func C07(c *core.Ctx) {
 	//     and sending one message does not alter another
 	for i := 0; i < c.N(40, 800); i++ {
 		a, b := genPcall(r, false), genPcall(r, false)
+		for a.bad || b.bad {
+			a, b = genPcall(r, false), genPcall(r, false)
+		}
 		a.kind, b.kind = "packed", "compressed"
 		a.run()
 		b.run()
@@ -309,7 +335,7 @@ func C07(c *core.Ctx) {
 		c.Hist("send helpers")
 	}
 	// (c) concurrently (free running, race detector on): goroutines build and keep messages
-	for _, workers := range []int{2, 8} {
+	for _, workers := range []int{2, 8, 16} {
 		var wg sync.WaitGroup
 		var mu sync.Mutex
 		var all []*pcall
@@ -318,9 +344,21 @@ func C07(c *core.Ctx) {
 			wg.Add(1)
 			go func() {
 				defer wg.Done()
-				for i := 0; i < c.N(20, 300); i++ {
+				for i := 0; i < c.N(60, 400); i++ {
 					p := genPcall(rr, false)
+					if i%2 == 0 {
+						p.kind = "compressed_bytes" // the compressor pool is the most contended object
+					}
 					p.run()
+					// what was returned must be right the moment it is returned, also under contention
+					if what, ok := p.stillIntact(); !ok {
+						c.Violation("judge-go", "c07-changed:"+p.kind, what+" (checked right after return, under contention)", nil)
+					}
+					if p.kind == "compressed_bytes" && p.err == nil {
+						if raw, err := gunzipOne(p.msg.EventStream); err != nil || !bytes.Equal(raw, p.paySnap) {
+							c.Violation("judge-go", "c07-foreign-bytes", "a compressed message built under contention does not gunzip to its own payload", nil)
+						}
+					}
 					mu.Lock()
 					all = append(all, p)
 					mu.Unlock()
